@@ -33,11 +33,13 @@ LEVEL_TEXT = ("Coq theorems, for every evaluation function, candidate set, subse
               "non-domination, problem unchanged), including problems without any feasible decision (the least-violating member is returned), "
               "subsets equal to the whole candidate set and problems constructed with elementwise=False. "
               "Phase 2: the expressions and statements on which these theorems turn are REGENERATED FROM THE SOURCE on every run "
-              "(harness/translate/c06_kernel.py -> Gen/C06_Kernel.v, 74 definitions): the climbers' acceptance tests, score/violation formulas, "
+              "(harness/translate/c06_kernel.py -> Gen/C06_Kernel.v, 76 definitions): the climbers' acceptance tests, score/violation formulas, "
               "accepting branches (which of best_i/j/obj/ineqcv/eqcv/score/cv is assigned from what), loop head, break test, commit, element exchange "
               "and exchange pool; the sorting key, slice bounds and singleton evaluations; dominates; tiled_choice's tiles; the crossover/mutation masks, "
               "exchange count and exchange; MutatorA/B's unused-candidate set, guard, step count, tiled-draw arguments, trial-row assignment and "
-              "front argmin; the integer rounding; and the table (class, Solution keyword, provenance) of all sixteen optimiser classes. "
+              "front argmin; the integer rounding; the table of every random draw site of pymoo_addon.py (function, method, generator drawn from; "
+              "theorem C06_kernel_draws_from_handed_generator: all of them the random_state the operator was handed, bound once before the first draw, "
+              "global_prng only as the fallback for None); and the table (class, Solution keyword, provenance) of all sixteen optimiser classes. "
               "Proofs/C06_Kernel.v links each to the hand model (by conversion) and proves that the loop re-assembled from the generated statements, "
               "keeping the state the source keeps (stored best_score/best_cv), refines the model's climber and reports the score/violation of the "
               "returned decision; theorems C06_kernel_* restate feasibility, optimality, the climber result clause, dominates being a strict "
@@ -58,7 +60,8 @@ LEVEL_NOTE = ("trusted: Coq kernel + vm_compute; pymoo's evolutionary loop, surv
 TECHNIQUE = "Coq proof over an executable model; in-Coq vm_compute correspondence (call traces, scripted draws); run-time result monitor"
 RULE = ("case = (kind, problem, draws): kinds sort|sd|ssd (integer table problems: linear + pair-interaction objective, clipped/raw "
         "inequality and equality constraints, candidate sets of 1..10 (a few 11..16) elements incl. k=1, k=n, tied keys; sd with scripted "
-        "or seeded start), op_sample|op_cx|op_mut|op_round|op_hcAB (operators with numpy.random replaced by a recording script that honours "
+        "or seeded start), op_sample|op_cx|op_mut|op_round|op_hcAB (operators drawing from a recording script - handed as random_state, or, with random_state None / "
+        "omitted, installed as the process-wide stream the operator must fall back to - that honours "
         "the arguments passed and is biased to boundaries/repeats; op_hcAB: 1..3 objectives, tied objective values, k=n, nhcstep up to 2k+1 "
         "so that allele draws wrap around), ga (all 13 pymoo-based classes, ngen 1..6, pop 1..12, with/without "
         "constraints, certainly infeasible problems for every class, k=n incl. every individual hill-climbed, elementwise=False); generated from one PRNG; non-trivial = climber makes at least one exchange / "
@@ -71,11 +74,13 @@ RULE = ("case = (kind, problem, draws): kinds sort|sd|ssd (integer table problem
         "directly, size 0, < a, multiples of a), op_hc2 (hillclimb of the four other memetic mutation classes called directly), GA constructor "
         "parameters rng and nhcstep, aliasing (every returned solution array is overwritten in place and the problem re-compared; results of "
         "sampling / crossover / mutation / MutatorA/B.hillclimb must not share memory with their inputs); the public entry points of the 17 anchored modules are enumerated by introspection at "
-        "run time and must all be classified (COVERED with their parameter lists / SKIPPED with a reason)")
+        "run time and must all be classified (COVERED with their parameter lists / SKIPPED with a reason), likewise the operator methods "
+        "hillclimb / reduced_exchange / _do / do of the covered pymoo_addon classes (COVERED_METHODS)")
 TRUSTED = ["pymoo 0.6.2 GA/NSGA2/NSGA3 loops and Result extraction (not modelled; every run is checked by the result monitor)",
            "numpy.random.choice(..., replace=False) yields distinct positions (oracle contract assumed by sampling_feasible)",
-           "numpy.random functions are replaced inside run_impl by a recording script for the operator cases; pymoo's default_rng(None) is "
-           "redirected to a seeded generator so that runs are replayable",
+           "the operator cases hand a recording script as random_state (positionally / by keyword) or hand none and replace the process-wide streams "
+           "(numpy.random's module functions and pymoo_addon.global_prng) by the script; in the first mode a second script stands in for the "
+           "process-wide streams and must stay untouched; pymoo's default_rng(None) is redirected to a seeded generator so that runs are replayable",
            "harness/translate/c06_kernel.py (ast -> Gallina for the kernel expressions; fail closed on any statement shape it does not describe)"]
 ASSUMPTIONS = ["candidate set duplicate-free, ndecn <= len(decn_space) (SubsetProblem checks the length)",
                "evalfn is a pure function of the decision vector", "table problems are integer valued (exact in binary64)"]
@@ -164,7 +169,8 @@ COVERED = {
     "NSGA2MutatorASubsetGeneticAlgorithm": (["ngen", "pop_size", "phc", "nhcstep", "rng", "kwargs"], "kind ga"),
     "NSGA2MutatorBSubsetGeneticAlgorithm": (["ngen", "pop_size", "phc", "nhcstep", "rng", "kwargs"], "kind ga"),
     "dominates": (["obj1", "cv1", "obj2", "cv2"], "kind op_dom vs dominates_m"),
-    "tiled_choice": (["a", "size"], "kinds op_tiled (direct) and op_hcAB (request log)"),
+    "tiled_choice": (["a", "size", "random_state"], "kinds op_tiled (direct; random_state a scripted generator, positional or by keyword, or None / omitted = "
+                     "the module's global_prng) and op_hcAB (request log)"),
     "SubsetRandomSampling": (["setspace", "replace"], "kind op_sample"),
     "ReducedExchangeCrossover": (["kwargs"], "kind op_cx"),
     "ReducedExchangeMutation": (["setspace", "kwargs"], "kind op_mut"),
@@ -194,6 +200,30 @@ SKIPPED = {
     "check_is_Solution": "type guard",
 }
 
+# (class, method) -> (parameters, how it is exercised): the operator methods through which the generator travels
+_HC = ["problem", "x", "args", "random_state", "kwargs"]
+_DO = ["problem", "X", "kwargs"]
+COVERED_METHODS = {
+    ("SubsetRandomSampling", "_do"): (["problem", "n_samples", "kwargs"], "op_sample: random_state handed in kwargs / absent (global_prng)"),
+    ("ReducedExchangeCrossover", "_do"): (_DO, "op_cx: random_state handed / absent"),
+    ("ReducedExchangeMutation", "_do"): (_DO, "op_mut: random_state handed / absent"),
+    ("IntegerSimulatedBinaryCrossover", "_do"): (_DO, "op_round"), ("IntegerPolynomialMutation", "_do"): (_DO, "op_round"),
+    ("MutatorA", "hillclimb"): (_HC, "op_hcAB: random_state handed (scripted) / None"), ("MutatorB", "hillclimb"): (_HC, "op_hcAB: handed / None"),
+    ("StochasticHillClimberMutation", "hillclimb"): (_HC, "op_hc2: handed / None"),
+    ("MultiObjectiveStochasticHillClimberMutation", "hillclimb"): (_HC, "op_hc2: handed / None"),
+    ("MultiObjectiveSteepestDescentHillClimberMutation", "hillclimb"): (["problem", "indiv", "args", "random_state", "kwargs"], "op_hc2: handed / None"),
+    ("MultiObjectiveStochasticDescentHillClimberMutation", "hillclimb"): (["prob", "indiv", "args", "random_state", "kwargs"], "op_hc2: handed / None"),
+    ("StochasticHillClimberMutation", "reduced_exchange"): (_HC, "op_hc2 (fallback of hillclimb when nothing is non-dominated) + ga"),
+    ("MutatorA", "reduced_exchange"): (_HC, "ga (pymoo hands the generator to _do, which hands it on)"), ("MutatorB", "reduced_exchange"): (_HC, "ga"),
+    ("MutatorA", "_do"): (_DO, "ga"), ("MutatorB", "_do"): (_DO, "ga"), ("StochasticHillClimberMutation", "_do"): (_DO, "ga"),
+    ("MultiObjectiveSteepestDescentHillClimberMutation", "_do"): (_DO, "ga"),
+    ("MultiObjectiveSteepestDescentHillClimberMutation", "do"): (["problem", "pop", "inplace", "kwargs"], "ga"),
+    ("MultiObjectiveStochasticDescentHillClimberMutation", "_do"): (_DO, "used by no optimiser class (see COVERED)"),
+    ("MultiObjectiveStochasticDescentHillClimberMutation", "do"): (["problem", "pop", "inplace", "kwargs"], "used by no optimiser class"),
+    ("MultiObjectiveStochasticHillClimberMutation", "_do"): (_DO, "used by no optimiser class"),
+}
+OPERATOR_METHODS = ("hillclimb", "reduced_exchange", "_do", "do")
+
 def _audit_entry_points():
     """every public class / function defined in the anchored modules must be classified, with the parameters recorded here"""
     import importlib, inspect
@@ -210,6 +240,18 @@ def _audit_entry_points():
         if n not in COVERED: bad.append("unclassified entry point %s(%s)" % (n, ", ".join(ps)))
         elif COVERED[n][0] != ps: bad.append("%s: parameters %r, recorded %r" % (n, ps, COVERED[n][0]))
     bad += ["%s is listed but no longer defined" % n for n in list(COVERED) + list(SKIPPED) if n not in found]
+    PA = importlib.import_module("pybrops.opt.algo.pymoo_addon")
+    meths = {}
+    for n, o in vars(PA).items():
+        if inspect.isclass(o) and o.__module__ == PA.__name__ and n in COVERED:
+            for m, f in vars(o).items():
+                if m in OPERATOR_METHODS or (inspect.isfunction(f) and not m.startswith("_") and "random_state" in inspect.signature(f).parameters):
+                    meths[(n, m)] = [q for q in inspect.signature(f).parameters if q != "self"]
+    for key, ps in meths.items():
+        if key not in COVERED_METHODS: bad.append("unclassified operator method %s.%s(%s)" % (key + (", ".join(ps),)))
+        elif COVERED_METHODS[key][0] != ps: bad.append("%s.%s: parameters %r, recorded %r" % (key + (ps, COVERED_METHODS[key][0])))
+    bad += ["%s.%s is listed but no longer defined" % k for k in COVERED_METHODS if k not in meths]
+    if PA.global_prng is not numpy.random.random.__self__: bad.append("pymoo_addon.global_prng is not numpy's process-wide RandomState")
     if bad: raise RuntimeError("C06 entry-point audit: " + "; ".join(bad))
 
 HC2 = ["StochasticHillClimberMutation", "MultiObjectiveSteepestDescentHillClimberMutation", "MultiObjectiveStochasticDescentHillClimberMutation",
@@ -267,15 +309,17 @@ def gen_cases(rng, tier):
         cases.append({"kind": "op_dom", "o1": o1, "o2": o2, "cv1": rng.choice([0, 0, -1, 1, 2]), "cv2": rng.choice([0, 0, -1, 1, 2]), "sc": rng.choice([0, 0, -40, 20])})
     for i in range(40 if q else 400):
         a = rng.randint(1, 7)
-        cases.append({"kind": "op_tiled", "a": a, "size": rng.choice([0, 1, a, a - 1, a + 1, 2 * a, rng.randint(0, 3 * a + 2)]), "seed": rng.randint(0, 10 ** 6)})
-    for i in range(60 if q else 600):
+        cases.append({"kind": "op_tiled", "a": a, "size": rng.choice([0, 1, a, a - 1, a + 1, 2 * a, rng.randint(0, 3 * a + 2)]), "seed": rng.randint(0, 10 ** 6),
+                      "rs": rng.choice(["pos", "kw", "kw", "none", "omitted"])})
+    for i in range(100 if q else 800):
         n = rng.randint(1, 8); k = n if rng.random() < 0.12 else rng.randint(1, max(1, n - 1))
         p = _tprob(rng, n=n, k=k, nobj=rng.choice([2, 2, 3]), symmetric=True, ties=rng.random() < 0.4, neq=0)
         p["clip"] = True
-        which = rng.choice(HC2)
+        which = rng.choice(HC2 + HC2[:2])             # the two classes optimisers use: twice as often
         if k == n and which in HC2[2:]: which = rng.choice(HC2[:2])
         cases.append({"kind": "op_hc2", "which": which, "prob": p, "x": rng.sample(p["cand"], k),
-                      "nhcstep": rng.choice([None, 1, rng.randint(1, 2 * k + 1)]), "seed": rng.randint(0, 10 ** 6), "elementwise": rng.random() < 0.8})
+                      "nhcstep": rng.choice([None, 1, rng.randint(1, 2 * k + 1)]), "seed": rng.randint(0, 10 ** 6), "elementwise": rng.random() < 0.8,
+                      "rs": rng.choice(["kw", "kw", "kw", "none", "omitted"])})
     # --- exact optimisers
     for i in range(160 if q else 3000):
         ties = rng.random() < 0.35
@@ -300,7 +344,7 @@ def gen_cases(rng, tier):
     for i in range(100 if q else 800):
         n = rng.randint(1, 9); M = n + rng.randint(0, 3); cand = rng.sample(range(M), n)
         cases.append({"kind": "op_sample", "cand": cand, "k": rng.choice([1, n, rng.randint(1, n)]), "n": rng.randint(0, 4),
-                      "replace": rng.random() < 0.15, "seed": rng.randint(0, 10 ** 6)})
+                      "replace": rng.random() < 0.15, "seed": rng.randint(0, 10 ** 6), "rs": rng.choice(["kw", "kw", "kw", "none", "omitted"])})
     for i in range(140 if q else 2000):
         if rng.random() < 0.3:
             n = rng.randint(1, 10); k = rng.choice([1, n, rng.randint(1, n)])
@@ -310,7 +354,7 @@ def gen_cases(rng, tier):
         mat = [_parents(rng, cand, k) for _ in range(rng.randint(1, 4))]
         if rng.random() < 0.08:                         # a parent with a repeated member: outside the theorem's hypothesis, still modelled
             a, b = mat[0]; a = list(a); a[-1] = a[0]; mat[0] = (a, b)
-        cases.append({"kind": "op_cx", "cand": cand, "k": k, "A": [m[0] for m in mat], "B": [m[1] for m in mat], "seed": rng.randint(0, 10 ** 6)})
+        cases.append({"kind": "op_cx", "cand": cand, "k": k, "A": [m[0] for m in mat], "B": [m[1] for m in mat], "seed": rng.randint(0, 10 ** 6), "rs": rng.choice(["kw", "kw", "kw", "none", "omitted"])})
     for i in range(100 if q else 800):
         n = rng.randint(2, 9); setspace = rng.sample(range(n + 3), n); k = rng.randint(1, n - 1)
         X = [rng.sample(setspace, k) for _ in range(rng.randint(1, 4))]
@@ -318,7 +362,7 @@ def gen_cases(rng, tier):
             for x in X:
                 for j in range(k):
                     if rng.random() < 0.5: x[j] = 100 + rng.randint(0, 5)
-        cases.append({"kind": "op_mut", "setspace": setspace, "X": X, "seed": rng.randint(0, 10 ** 6)})
+        cases.append({"kind": "op_mut", "setspace": setspace, "X": X, "seed": rng.randint(0, 10 ** 6), "rs": rng.choice(["kw", "kw", "kw", "none", "omitted"])})
     for i in range(60 if q else 500):
         which = rng.choice(["sbx", "pm"]); nv = rng.randint(1, 5); rows = rng.randint(1, 3)
         shape = [2, rows, nv] if which == "sbx" else [rows, nv]
@@ -333,7 +377,8 @@ def gen_cases(rng, tier):
         n = rng.randint(1, 9); k = n if rng.random() < 0.12 else rng.randint(1, max(1, n - 1))
         p = _tprob(rng, n=n, k=k, nobj=rng.choice([1, 2, 2, 3]), nineq=0, neq=0, symmetric=True, ties=rng.random() < 0.4)
         cases.append({"kind": "op_hcAB", "which": rng.choice(["A", "B"]), "prob": p, "x": rng.sample(p["cand"], k),
-                      "nhcstep": rng.choice([None, None, 1, rng.randint(1, 2 * k + 1)]), "seed": rng.randint(0, 10 ** 6)})
+                      "nhcstep": rng.choice([None, None, 1, rng.randint(1, 2 * k + 1)]), "seed": rng.randint(0, 10 ** 6),
+                      "rs": rng.choice(["kw", "kw", "kw", "none", "omitted"])})
     # --- pymoo-driven optimisers: result monitor
     reps = 14 if q else 120
     for algo in SUBSET_GA:
@@ -539,12 +584,32 @@ class _Script:
         return vs[0] if size is None else numpy.array(vs, dtype=float)
 
 class _patched_random:
+    """the process-wide streams replaced by a script: numpy.random's module functions and the global_prng object pymoo_addon falls
+    back to when it is handed no generator"""
     def __init__(self, script): self.s = script
     def __enter__(self):
-        self.saved = (numpy.random.choice, numpy.random.randint, numpy.random.random)
+        from pybrops.opt.algo import pymoo_addon as PA
+        self.saved = (numpy.random.choice, numpy.random.randint, numpy.random.random, PA.global_prng)
         numpy.random.choice, numpy.random.randint, numpy.random.random = self.s.choice, self.s.randint, self.s.random
+        PA.global_prng = self.s
     def __exit__(self, *a):
-        numpy.random.choice, numpy.random.randint, numpy.random.random = self.saved
+        from pybrops.opt.algo import pymoo_addon as PA
+        numpy.random.choice, numpy.random.randint, numpy.random.random, PA.global_prng = self.saved
+
+def _drawn(case, call):
+    """run call(args, kwargs) with the case's script as the source of every draw.  case["rs"] says how the generator reaches the
+    operator: "kw" / "pos" - handed as random_state (the process-wide streams are replaced by a second script that must stay
+    untouched); "none" / "omitted" - random_state=None / not passed: the operator must fall back to the process-wide stream, which
+    is the script.  Returns (result, request log, number of draws from the process-wide streams while a generator was handed)"""
+    s = _Script(case["seed"]); rs = case.get("rs", "kw")
+    if rs in ("kw", "pos"):
+        g = _Script(case["seed"] + 1)
+        with _patched_random(g):
+            r = call((s,), {}) if rs == "pos" else call((), {"random_state": s})
+        return r, s.log, len(g.log)
+    with _patched_random(s):
+        r = call((), {"random_state": None} if rs == "none" else {})
+    return r, s.log, 0
 
 class _NVar:
     def __init__(self, n): self.n_var = n
@@ -633,11 +698,9 @@ def run_impl(case):
         return {"dom": bool(r), "type": type(r).__name__, "inputs_unchanged": bool(numpy.array_equal(o1, a1) and numpy.array_equal(o2, a2))}
     if kind == "op_tiled":
         from pybrops.opt.algo.pymoo_addon import tiled_choice
-        s = _Script(case["seed"])
-        with _patched_random(s):
-            r = tiled_choice(case["a"], case["size"])
+        r, log, gd = _drawn(case, lambda a, k: tiled_choice(case["a"], case["size"], *a, **k))
         r = numpy.asarray(r)
-        return {"out": [int(v) for v in r], "dtype": str(r.dtype), "log": s.log}
+        return {"out": [int(v) for v in r], "dtype": str(r.dtype), "log": log, "global_draws": gd}
     if kind == "op_hc2":
         from pybrops.opt.algo import pymoo_addon as PA
         from pymoo.core.individual import Individual
@@ -651,51 +714,43 @@ def run_impl(case):
         elif which == "MultiObjectiveSteepestDescentHillClimberMutation": op = PA.MultiObjectiveSteepestDescentHillClimberMutation(setspace=setspace, p_hillclimb=1.0)
         elif which == "MultiObjectiveStochasticDescentHillClimberMutation": op = PA.MultiObjectiveStochasticDescentHillClimberMutation(setspace=setspace, phc=1.0, nhc=case["nhcstep"])
         else: op = PA.MultiObjectiveStochasticHillClimberMutation(setspace=setspace, p_hillclimb=1.0)
-        numpy.random.seed(case["seed"])
         if which.startswith("MultiObjectiveS") and which != "MultiObjectiveStochasticHillClimberMutation":
             ind = Individual(); ind.X = x
-            res = op.hillclimb(prob, ind)
+            res, log, gd = _drawn(case, lambda a, k: op.hillclimb(prob, ind, **k))
             rows = numpy.asarray(res.get("X")); F = numpy.asarray(res.get("F"), dtype=float)
             rows = rows.reshape(len(res), -1) if len(res) else numpy.zeros((0, len(x)), dtype=int)
             Fh = _hx(F.reshape(len(res), -1)) if len(res) else []
         else:
-            res = numpy.asarray(op.hillclimb(prob, x))
+            res, log, gd = _drawn(case, lambda a, k: op.hillclimb(prob, x, **k))
+            res = numpy.asarray(res)
             rows = res.reshape(1, -1); Fh = None
-        return {"rows": rows.tolist(), "dtype": str(rows.dtype), "F": Fh, "x_unchanged": bool(numpy.array_equal(x, x0)), "unchanged": _snap(prob) == before,
+        return {"global_draws": gd, "ndraws": len(log), "rows": rows.tolist(), "dtype": str(rows.dtype), "F": Fh, "x_unchanged": bool(numpy.array_equal(x, x0)), "unchanged": _snap(prob) == before,
                 "setspace_unchanged": setspace.tolist() == p["cand"], "shares": bool(numpy.shares_memory(rows, x) or numpy.shares_memory(rows, setspace))}
     if kind == "op_sample":
         from pybrops.opt.algo.pymoo_addon import SubsetRandomSampling
-        s = _Script(case["seed"])
         setspace = numpy.array(case["cand"], dtype=int)
         op = SubsetRandomSampling(setspace=setspace, replace=case["replace"]) if case["replace"] else SubsetRandomSampling(setspace=setspace)
-        g = _Script(case["seed"] + 1)                 # the operator is handed its generator; the global stream must stay untouched
-        with _patched_random(g):
-            X = op._do(_NVar(case["k"]), case["n"], random_state=s)
-        return {"global_draws": len(g.log), "X": numpy.asarray(X).tolist(), "dtype": str(numpy.asarray(X).dtype), "shape": list(numpy.shape(X)), "log": s.log,
+        # the operator is handed its generator (the process-wide stream must stay untouched) or none (it must use the process-wide stream)
+        X, log, gd = _drawn(case, lambda a, k: op._do(_NVar(case["k"]), case["n"], **k))
+        return {"global_draws": gd, "X": numpy.asarray(X).tolist(), "dtype": str(numpy.asarray(X).dtype), "shape": list(numpy.shape(X)), "log": log,
                 "setspace_unchanged": setspace.tolist() == case["cand"], "shares": bool(numpy.shares_memory(numpy.asarray(X), setspace))}
     if kind == "op_cx":
         from pybrops.opt.algo.pymoo_addon import ReducedExchangeCrossover
-        s = _Script(case["seed"])
         X = numpy.array([case["A"], case["B"]], dtype=int)
         X0 = X.copy()
         op = ReducedExchangeCrossover()
-        g = _Script(case["seed"] + 1)
-        with _patched_random(g):
-            Xp = op._do(_NVar(case["k"]), X, random_state=s)
-        return {"global_draws": len(g.log), "Xp": numpy.asarray(Xp).tolist(), "dtype": str(Xp.dtype), "log": s.log, "input_unchanged": bool(numpy.array_equal(X, X0)),
+        Xp, log, gd = _drawn(case, lambda a, k: op._do(_NVar(case["k"]), X, **k))
+        return {"global_draws": gd, "Xp": numpy.asarray(Xp).tolist(), "dtype": str(Xp.dtype), "log": log, "input_unchanged": bool(numpy.array_equal(X, X0)),
                 "n_parents": int(op.n_parents), "n_offsprings": int(op.n_offsprings), "shares": bool(numpy.shares_memory(numpy.asarray(Xp), X))}
     if kind == "op_mut":
         from pybrops.opt.algo.pymoo_addon import ReducedExchangeMutation
-        s = _Script(case["seed"])
         setspace = numpy.array(case["setspace"], dtype=int)
         X = numpy.array(case["X"], dtype=int); X0 = X.copy()
         op = ReducedExchangeMutation(setspace=setspace)
         pr = _NVar(X.shape[1])
-        g = _Script(case["seed"] + 1)
-        with _patched_random(g):
-            Xm = op._do(pr, X, random_state=s)
+        Xm, log, gd = _drawn(case, lambda a, k: op._do(pr, X, **k))
         pv = op.get_prob_var(pr)
-        return {"global_draws": len(g.log), "Xm": numpy.asarray(Xm).tolist(), "dtype": str(Xm.dtype), "log": s.log, "p": float(pv).hex(),
+        return {"global_draws": gd, "Xm": numpy.asarray(Xm).tolist(), "dtype": str(Xm.dtype), "log": log, "p": float(pv).hex(),
                 "input_unchanged": bool(numpy.array_equal(X, X0)), "setspace_unchanged": setspace.tolist() == case["setspace"],
                 "shares": bool(numpy.shares_memory(numpy.asarray(Xm), X) or numpy.shares_memory(numpy.asarray(Xm), setspace))}
     if kind == "op_round":
@@ -726,11 +781,9 @@ def run_impl(case):
         x = numpy.array(case["x"], dtype=int); x0 = x.copy()
         setspace = numpy.array(p["cand"], dtype=int)
         op = (PA.MutatorA if case["which"] == "A" else PA.MutatorB)(setspace=setspace, phc=1.0, nhcstep=case["nhcstep"])
-        s = _Script(case["seed"])
-        with _patched_random(s):
-            res = op.hillclimb(prob, x)
+        res, log, gd = _drawn(case, lambda a, k: op.hillclimb(prob, x, **k))
         res = numpy.asarray(res)
-        return {"out": res.tolist(), "dtype": str(res.dtype), "log": s.log, "calls": list(prob.calls), "x_unchanged": bool(numpy.array_equal(x, x0)),
+        return {"global_draws": gd, "out": res.tolist(), "dtype": str(res.dtype), "log": log, "calls": list(prob.calls), "x_unchanged": bool(numpy.array_equal(x, x0)),
                 "unchanged": _snap(prob) == before, "setspace_unchanged": setspace.tolist() == p["cand"],
                 "shares": bool(numpy.shares_memory(res, x) or numpy.shares_memory(res, setspace))}
     if kind == "ga":
@@ -1090,6 +1143,9 @@ def _pred(case, out):
         cand = case["prob"]["cand"]; k = case["prob"]["k"]
         if not out["x_unchanged"]: bad.append("hillclimb modified its input chromosome")
         if not out["unchanged"] or not out["setspace_unchanged"]: bad.append("hillclimb modified the problem / set space")
+        if k < len(cand) and not out["ndraws"]:
+            bad.append("%s.hillclimb (random_state %s) made no draw from %s although unused candidates exist" % (
+                case["which"], case.get("rs"), "the generator it was handed" if case.get("rs") in ("kw", "pos") else "the process-wide stream it must fall back to"))
         # (no memory-sharing clause here: StochasticHillClimberMutation.hillclimb falls back to reduced_exchange, which returns its argument;
         #  _do hands it a row of its private copy.  The input must be unchanged, which is checked above.)
         used = case["which"] in HC2[:2]      # the other two classes are used by no optimiser: only feasibility is demanded of them (see COVERED)
